@@ -141,6 +141,24 @@ NEEDS = {
  "C18g-prefix-index-caches-missing": ("C18", ["C18"], "a module with 8 or more imports, one of them loaded only after a first Process"),
  "C19g-sorted-dir-cache-17-children": ("C19", ["C19"], "concurrent Print of a directory with 17 or more children"),
  "C20g-scratch-256-estimate-short": ("C20", ["C20"], "one Write at a line start, not ending in a line break, of about 250 to 256 bytes"),
+ "C01h-errorset-8-slots-doubling-returns": ("C01", ["C01"], "nine or more distinct errors at the bottom of a chain of 23 or more groupings nested through containers: exponential again"),
+ "C02h-indent-fastpath-64-spaces": ("C02", ["C02"], "a multi-line double-quoted string opening at column 64 or later with a continuation line of 65 or more blanks"),
+ "C03h-reserve-copy-drops-earlier-run": ("C03", ["C03"], "one keyword in two runs under a node, the later run of 16 or more consecutive statements: the earlier ones vanish from the field"),
+ "C04h-uses-block-move-12": ("C04", ["C04"], "12 or more uses statements directly in one node of a module body: children of the grouping's directories keep the orphaned parent"),
+ "C05h-geterrors-cap-100-before-sort": ("C05", ["C05"], "more than 100 distinct errors in one tree: a map-order dependent subset survives"),
+ "C06h-copynode-shares-default-array": ("C06", ["C06"], "a leaf-list with 3, 5..7, 9..15 defaults directly in a grouping used twice, deviate add default on two instances"),
+ "C07h-prefix-index-by-module-name": ("C07", ["C07"], "two revisions of a module, both with 8 or more imports, binding a prefix differently, each with an augment through it"),
+ "C08h-import-index-sorted-by-name": ("C08", ["C08", "C09"], "a deviating module with more than 16 imports whose prefixes sort unlike the module names"),
+ "C09h-shared-pattern-set-8": ("C09", ["C09"], "a typedef with 8 or more patterns and two types adding the same further pattern"),
+ "C10h-range-memo-hash-collision": ("C10", ["C10"], "two restriction texts of equal length with the same FNV-1a-32 hash parsed one after the other (NOT caught: needs a pair found by brute force against the memo's hash function)"),
+ "C11h-sortidentities-run-by-wrong-slice": ("C11", ["C11", "C05"], "a closure of more than 32 identities with names repeated across modules: order follows map iteration"),
+ "C12h-ns-index-stale-after-unrevisioned-add": ("C12", ["C12", "C18"], "16 or more registry entries, a namespace lookup, then a module without revision is added: InstantiatingModule fails for its nodes"),
+ "C13h-dir-index-64-entries": ("C13", ["C13"], "a search-path directory with 64 or more entries and a lookup by dated name"),
+ "C14h-member-table-ring-32": ("C14", ["C14"], "more than 32 distinct enum/bits member lists, then an exact repeat of an early one"),
+ "C17h-checked-prefix-table-4": ("C17", ["C17"], "a path with five or more distinct prefixes (augment ladder over five modules)"),
+ "C18h-grouping-index-built-too-early": ("C18", ["C18"], "a submodule with 16 or more groupings that uses a grouping of a submodule it includes, processed before its owner is loaded"),
+ "C19h-posix-pattern-cache-published-early": ("C19", ["C19"], "a posix-pattern of 48 or more bytes resolved by two loaders at once while not in the table (first use, or more than 128 distinct ones)"),
+ "C20h-prefix-cache-slot-reuse": ("C20", ["C20"], "nine or more distinct prefixes requested while an earlier writer is still in use"),
  "C20b-empty-write-clears-partial": ("C20", ["C20"], "zero-length Write in the middle of a line clears the mid-line flag: the next Write gets a prefix inside the line"),
  "C20-early-out-continued-line": ("C20", ["C20"], "short write of 1..len(prefix) bytes on a Write that continues a partial line returns 0 although caller bytes were written"),
 }
